@@ -29,12 +29,16 @@ where
     }
 
     fn map2_to_curve(p1: &PtT::Base, p2: &PtT::Base) -> PtT {
-        let mut p = {
-            let mut tmp = PtT::osswu_map(p1);
-            tmp.add_assign(&PtT::osswu_map(p2));
-            tmp
-        };
+        // Apply the isogeny to each SSWU image and add on the target curve
+        // (RFC 9380, hash_to_curve): the group law implemented by add_assign
+        // is the one of the a = 0 curve, so adding on the isogenous curve
+        // (a != 0) is wrong whenever the two images coincide and the
+        // addition falls into the doubling formula.
+        let mut p = PtT::osswu_map(p1);
         p.isogeny_map();
+        let mut q = PtT::osswu_map(p2);
+        q.isogeny_map();
+        p.add_assign(&q);
         p.clear_h();
         debug_assert!(p.into_affine().in_subgroup());
         p
